@@ -34,6 +34,8 @@ def impl_autoforwards(p, ns):
         args = (ns['inst'],)
     elif p.route == 'parameter':
         args = (ns[list(p.callees)[0]],)
+    elif p.route == 'param_default':
+        args = (0,)
     try:
         with warnings.catch_warnings():
             warnings.simplefilter('ignore')
@@ -57,6 +59,13 @@ def check_program(p, rep, tag):
             return viol
         exp, plain = DC.expected_declared(p, ns)
         gc = DC.canon(got[1])
+        # asking again gives the same answer (discovery keeps no state between queries)
+        for again in (2, 3):
+            g2 = DC.get_sig(obj)
+            if g2[0] == 'err' or DC.canon(g2[1]) != gc:
+                viol.append(('C06:requery', 'query number %d of sigtools.signature(wrapper) gives %s, the first gave %s'
+                             % (again, g2[1], got[1])))
+                break
         ecs = [DC.canon(e) for e in exp] if exp is not None else [gc]
         if gc not in ecs:
             pc = [e for e in ecs if e[0] == gc[0]]
@@ -199,6 +208,7 @@ def prog_from_description(d, source):
     p = PG.Prog()
     p.route = d['route']
     p.context = d['context']
+    p.nosource = d.get('nosource', False)
     p.source = source
     p.outer = parse_params(d['outer'])
     p.callees = {k: parse_params(v) for k, v in d['callees'].items()}
